@@ -5,7 +5,9 @@ Extracted:
 * every `const MAX_*` of pe/parser.rs, dotnet/parser.rs, dex/parser.rs (name, value);
 * how each cap is applied (shape checks): `usize::min(count, MAX)` / `min(.., MAX)`
   before a counted parse, `.take(MAX)` on an iterator, `len() == MAX -> return`;
-* pe parse_resources: the deepest level whose entries are processed (the match
+* pe parse_resources: the counter of examined entries and its cap
+  MAX_PE_RESOURCE_DIR_ENTRIES (counted first in the loop body; queue cleared and
+  loop left once exceeded); the deepest level whose entries are processed (the match
   arms `0 =>`, `1 =>`, `2 =>`, `_ => continue`), that sub-directories are queued
   with `level + 1`, and whether the traversal remembers visited directories;
 * dotnet parse_type_spec: the guard `*depth == MAX_RECURSION -> Err` followed by
@@ -51,6 +53,13 @@ def main():
     if not qm:
         raise TranslateError("cap no longer applied as modelled: parse_resources: sub-directories queued with level + 1 (optionally only while level < K)")
     queue_guard = int(qm.group(1)) if qm.group(1) else None
+    need(flat, r"let mut num_dir_entries = 0;", "parse_resources: counter of examined directory entries starts at 0")
+    need(flat, r"for dir_entry in dir_entries \{ num_dir_entries \+= 1; if num_dir_entries > Self::MAX_PE_RESOURCE_DIR_ENTRIES \{ queue\.clear\(\); break; \}",
+         "parse_resources: every examined entry is counted first; past MAX_PE_RESOURCE_DIR_ENTRIES the queue is cleared and the loop left")
+    if flat.count("num_dir_entries") != 3:
+        raise TranslateError("parse_resources: num_dir_entries is used in an unexpected place (reset / decremented?)")
+    if not any(n == "MAX_PE_RESOURCE_DIR_ENTRIES" for n, _ in cs["pe"]):
+        raise TranslateError("pe/parser.rs: const MAX_PE_RESOURCE_DIR_ENTRIES not found")
     m = re.search(r"let ids = match level \{", body)
     if not m:
         raise TranslateError("parse_resources: `let ids = match level {` not found")
